@@ -18,7 +18,8 @@ PARTIAL = ["eliminating the unrolled network slice by slice is proved exact for 
            "(implementation vs brute-force posterior of the unrolled network of the Lean model)"]
 RULE = ("templates with 1-3 binary/ternary variables per slice, random intra-slice DAG, inter-slice edges (persistence and cross), query "
         "times 0..3, evidence in several slices incl. interface variables; non-trivial = at least one inter-slice edge and T >= 1; "
-        "distinct = case JSON")
+        "distinct = case JSON"
+        " Also: direct backward_inference calls, smoothing queries, 6-variable ring slices, rounded tables in template completion, evidence dict reused and checked unchanged.")
 ASSUMPTIONS = ["default integer state names (the DBN classes do not carry state names)"]
 BUDGET_QUICK = 100
 LEVEL_TEXT = ("Kernel-checked: unrolling is slice-wise renaming — the CPD of (v,t) in the unrolled network denotes the template's slice-1 CPD "
